@@ -235,6 +235,11 @@ func checkC06(t core.TB, rec *core.Recorder, env *gen.Env, sc *selCase) {
 		return
 	}
 	defer os.RemoveAll(root)
+	if _, err := (&wsRun{Root: root, WS: sc.WS}).expect(env, runCfg{Sel: selection{HasEnable: true, Enable: []string{"dupSubExpr"}}, CheckTests: true, CheckGenerated: true}); err != nil {
+		rec.Reject() // generated workspace is not well-typed: outside the domain
+		rec.Count("workspace-rejected")
+		return
+	}
 	eff := sc.effective()
 	var want []string
 	for _, in := range core.Registry() {
